@@ -46,14 +46,24 @@ ASSUME = ['the sparsity pattern of a result is only checked where matrices.rst d
           'floating point agreement within 1e-10 relative (all inputs are small dyadic rationals)',
           'sizes of gemm/syrk output operands always match the product (mismatching C is not documented)',
           'the ASan flavour observes only accesses made by cvxopt\'s own C code']
-BOUNDS = {'quick': 'shapes 2x3, 3x2 (+ fixed 3x3, 1xn, empty); 3^6 patterns for construction/arithmetic, 2^6 '
-                   'patterns x small index palette, 2 matrices x (full one-argument domain, mid x mid two-argument '
-                   'pairs, full lists x small partner); slices de-duplicated by slice.indices(dim); BLAS-like: '
-                   'pattern palettes of 4-6 per operand; hist depth 3 over 14 operations; asan: half of the '
-                   'pattern blocks and 1 matrix for the index domains',
-          'thorough': 'as quick plus 3^6 patterns x small index palette, 4 matrices x (full x full slices/lists '
-                      'two-argument pairs for get and scalar set), raw slices start/stop/step over {None,-3..3}, '
-                      'larger BLAS-like palettes, hist depth 4 over 20 operations'}
+BOUNDS = {'quick': 'plain: shapes 2x3, 3x2 + 20 fixed patterns (0x0, 0x3, 3x0, 0x1, 1x0, 1x1, 1x3, 3x1, 3x3), typecodes d, z; '
+                   '3^6 patterns x {constructors, unary / scalar / V / size operations}; every 3rd 3^6 pattern x binary '
+                   'operations with 4 partner patterns; 2^6 {absent, nonzero} patterns x tiny index palette (16 index '
+                   'expressions per dimension, all kind pairs) x get + 6 value kinds; 2 selected matrices x (full '
+                   'one-argument domain: integers -7..6, 512 raw slices over {None,-3..3}^3, 400 lists and 400 integer '
+                   'matrices of length <= 3 over -3..3) x 16 value kinds, x (two-argument mid x mid: integers -4..4, slices '
+                   'de-duplicated by slice.indices(dim), lists / integer matrices of length <= 2) x get + 3 value kinds, x '
+                   '(lists of length <= 3 x small partner palette); gemv: 2^6 patterns x 3 trans x 16 alpha/beta x 5 '
+                   'increment/offset variants + sub-blocks; symv: 3^4 2x2 patterns + 8 3x3; gemm: 7 shapes (incl. zero '
+                   'dimensions) x 7 operand combinations x 9 trans pairs x 3^3 patterns x 9 alpha/beta x partial; syrk: 6 '
+                   'shapes x 3 combinations x uplo x trans x 4^2 patterns x 9 alpha/beta x partial; hist: depth 3 over 14 '
+                   'operations from 3 matrices x 2 typecodes.  asan: the same enumeration over every 4th-8th pattern block, '
+                   '1 selected matrix, small x mid index pairs, 2^3 gemm patterns, hist over 10 operations (~3.4e5 evaluations)',
+          'thorough': 'plain: quick plus 3^6 patterns x tiny index palette, 2^6 patterns x small palette (35 expressions per '
+                      'dimension) x all 16 value kinds, 4 selected matrices x mid x mid pairs x all value kinds, 2 matrices x '
+                      'raw slices (512) and lists (400) full x full pairs for get and scalar set, 3^6 patterns x gemv / axpy, '
+                      'all 3^6 patterns x binary operations with 6 partner patterns, gemm with 5^3 patterns and 9 shapes, '
+                      'hist depth 4 over 20 operations.  asan: the plain quick domain over every 2nd pattern block, 1 selected matrix'}
 
 TOL = 1e-10
 DENSE_SIDE = True
